@@ -64,13 +64,16 @@ CHECKS = [
      "replicate lists, estimates and alpha: limits ordered (quantile, BC; BCa on the one-sided branch of its pole), "
      "within the range of the finite replicates and NaN exactly when there is none (C13_in_range), unchanged by NaN "
      "replicates and reordering (C13_invariant), equivariant under increasing affine maps incl. BCa (C13_affine), nested "
-     "in alpha (quantile, BC). Tied to /repo by feeding the model the values of the real scipy.stats.norm.ppf/cdf calls "
+     "in alpha (quantile, BC, and BCa on the one-sided branch: C13_nested_bca / _outer / _total, with a kernel-checked "
+     "counterexample off the branch, c13n_offBranch_counterexample; C13_bca_nan / C13_bca_inf cover the no-finite-replicate and "
+     "z0 = +-inf branches). Tied to /repo by feeding the model the values of the real scipy.stats.norm.ppf/cdf calls "
      "(recorded; missing queries are answered by the real scipy) and comparing the limits; the derived clauses are also "
      "evaluated on the implementation's outputs and on pairs of real runs (shuffled+NaN-padded, affine image, second alpha, "
      "per component, alpha arrays).",
      BASE_NOTE + "scipy.stats.norm.ppf/cdf and x**1.5 are oracles (monotone cdf/ppf is a hypothesis of the ordering/nesting "
-     "theorems; a lawful instance is exhibited); np.nanquantile(method='linear') by its documented formula; BCa nesting is "
-     "evaluated, not proved; all-NaN components are outside the property.",
+     "theorems; a lawful instance is exhibited); np.nanquantile(method='linear') by its documented formula; exactly AT the "
+     "pole (1 - a*(z0+z) = 0) the model's rational division gives 0 where floats give +-inf - no theorem is stated there and "
+     "the harness would report a disagreement; the vectorised form is checked against per-component runs.",
      "Lean 4 proof about a hand-written model + differential correspondence check", "DESIGN.md §5 C13"),
  chk("C19",
      "Lean theorems: FraudScores.make_eq / C19_refines (whenever construction succeeds the object IS Scores.make genuines "
